@@ -84,7 +84,7 @@ static void c18_merge(Case& cs) {
   std::string desc;
   std::vector<std::string> good_paths;
   std::vector<M::Preamble> earlier_pre;
-  bool near_dup = false;
+  bool near_dup = false, indexless = false;
   for (unsigned i = 0; i < n; i++) {
     Input in; Contribution cb;
     in.path = cs.scratch + "/in" + std::to_string(i) + ".cdns";
@@ -147,6 +147,8 @@ static void c18_merge(Case& cs) {
         cref::Node eb = cref::mk_map({cref::mk_uint(0), cref::mk_map({cref::mk_uint(0), cref::mk_arr({cref::mk_uint(0), cref::mk_uint(0)}), cref::mk_uint(1), cref::mk_uint(0)})});
         root.kids[2].kids.insert(root.kids[2].kids.begin() + c.range(0, root.kids[2].kids.size()), eb);
       }
+      // block-parameters-index is optional with default 0: inputs from other writers may omit it
+      if (c.range(0, 3) == 0 && cref::drop_default_bp_index(root, c)) indexless = true;
       std::string bytes;
       cref::put_head_min(bytes, cref::ARR, 3);
       cref::encode(root.kids[0], bytes); cref::encode(root.kids[1], bytes);
@@ -229,6 +231,7 @@ static void c18_merge(Case& cs) {
   for (auto& cb : contrib) cs.st.cls("input_kind:" + cb.kind.substr(0, cb.kind.find('@')));
   if (expect.empty()) cs.st.cls("expected_empty_output");
   if (near_dup) cs.st.cls("near_duplicate_parameter_sets");
+  if (indexless) cs.st.cls("block_without_parameters_index");
   cs.st.cnt("blocks_compared", expect.size());
 }
 
